@@ -765,6 +765,39 @@ def post_shrink(rep, drv):
 
 # ----------------------------------------------------------------------------- entry points
 
+def check_sort_variants(rep, rng, n):
+    """sort(key=..., reverse=...) behaves as the list method of the same name does (a stable sort, also when reversed):
+    SEQUENCE OF / SET OF of INTEGER against a Python list of the same integers, keys with many ties"""
+    from pyasn1.type import univ as U
+    keys = [('abs', lambda x: abs(int(x))), ('mod3', lambda x: int(x) % 3), ('const', lambda x: 0), ('neg', lambda x: -int(x)),
+            ('none', None)]
+    for _ in range(n):
+        vals = [rng.choice([-3, -2, -1, 0, 1, 2, 3, 5, -5, 7]) for _ in range(rng.randrange(0, 9))]
+        kname, kf = rng.choice(keys)
+        rev = rng.random() < 0.5
+        cls = rng.choice([U.SequenceOf, U.SetOf])
+        o = cls(componentType=U.Integer())
+        o.extend(vals)
+        model = list(vals)
+        case = {'kind': 'sort-variant', 'container': cls.__name__, 'values': vals, 'key': kname, 'reverse': rev}
+        rep.evaluations += 1
+        rep.count('sort-variants')
+        try:
+            if kf is None:
+                o.sort(reverse=rev)
+                model.sort(reverse=rev)
+            else:
+                o.sort(key=kf, reverse=rev)
+                model.sort(key=kf, reverse=rev)
+            got = [int(x) for x in o]
+        except Exception as e:  # noqa
+            if vals:
+                rep.fail('sort-variant-raises:' + type(e).__name__, 'sort(key=%s, reverse=%s) raised %r' % (kname, rev, e), case)
+            continue
+        if got != model:
+            rep.fail('sort-variant-differs', 'sort(key=%s, reverse=%s) of %r gives %r, a list gives %r' % (kname, rev, vals, got, model), case)
+
+
 def run(rep, tier, seed):
     common.prove(rep)
     rng = common.rng_for(seed, 'C19')
@@ -786,6 +819,7 @@ def run(rep, tier, seed):
                        'resize, an invalid value after valid ones in extend/slice) are only run in the model-vs-code '
                        'correspondence stream',
                        'a schema SEQUENCE OF/SET OF is encoded like the empty one by the library (documented leniency)']
+    check_sort_variants(rep, common.rng_for(seed, 'C19', 'sort'), 400 if quick else 20000)
     # corpus first
     for head, ops_s in CORPUS:
         kind = kind_of(head)
